@@ -301,12 +301,15 @@ class ResourceScenario(ScenarioData):
 
         # If scoreboard shows a booking but there's available time, it's a partial slot
         # that was released - allow booking
-        if self.scoreboard[sb_idx] is not None and available_seconds < self.project.attributes.get(
-            "scheduleGranularity", 3600
-        ):
+        entry = self.scoreboard[sb_idx]
+        if isinstance(entry, int):
+            # Off-shift or leave marker (e.g. a global holiday): never bookable, even if a
+            # mid-slot start offset made the slot look partially used
+            return False
+        if entry is not None and available_seconds < self.project.attributes.get("scheduleGranularity", 3600):
             # Partial slot available - allow it
             pass
-        elif self.scoreboard[sb_idx] is not None:
+        elif entry is not None:
             return False
 
         limits = self.property.get("limits", self.scenarioIdx)
